@@ -17,7 +17,14 @@ var intrinsicMods map[string]func(c *ssa.CallCommon, ms *modSet)
 func noMods(c *ssa.CallCommon, ms *modSet) {}
 
 func byteSliceArgMods(argIdx int) func(c *ssa.CallCommon, ms *modSet) {
-	return func(c *ssa.CallCommon, ms *modSet) { ms.comps["E:uint8"] = true }
+	return func(c *ssa.CallCommon, ms *modSet) {
+		ms.comps["E:uint8"] = true
+		if argIdx < len(c.Args) {
+			for _, k := range sliceArgComps(c.Args[argIdx]) {
+				ms.comps[k] = true
+			}
+		}
+	}
 }
 
 const u8comp = "E:uint8"
@@ -54,6 +61,16 @@ func (fr *frame) readInt(s *Val, nbytes int, little bool) Term {
 func (fr *frame) writeInt(s *Val, v Term, nbytes int, little bool) {
 	ft := fr.ft
 	bk := s.backing()
+	{
+		lv0 := bk.extend(Step{Idx: &Term{SIdx, "(_ bv0 64)"}}, types.Typ[types.Uint8])
+		lo := s.sOff()
+		hi := app(SIdx, "bvadd", lo, idxInt(int64(nbytes)))
+		if len(bk.Steps) == 0 {
+			fr.frameCheckRange(compsOf(lv0), bk.Ref, &lo, &hi, "PutUint", token.NoPos)
+		} else {
+			fr.frameCheck(compsOf(lv0), bk.Ref, "PutUint", token.NoPos)
+		}
+	}
 	for j := 0; j < nbytes; j++ {
 		var k int
 		if little {
@@ -107,7 +124,7 @@ func init() {
 				fr.writeInt(s, v.L[0], nb, little)
 				return &Val{T: rt, Tup: []*Val{}}
 			}
-			intrinsicMods[wr] = byteSliceArgMods(0)
+			intrinsicMods[wr] = byteSliceArgMods(1)
 		}
 		// interface dispatch: receiver tag decides
 		rdI := fmt.Sprintf("(encoding/binary.ByteOrder).Uint%d", bits)
@@ -286,6 +303,7 @@ func init() {
 			na := ft.c.Fresh("readbuf", SArr(SIdx, SBV(8)))
 			fr.cur.mem.m[u8comp] = ft.c.Define("m$"+u8comp, mkStore(all, p.sRef(), na))
 			fr.checkLoopMod(u8comp)
+			fr.frameCheck([]string{u8comp}, p.sRef(), "ReadAt", pos)
 		}
 		n := ft.c.Fresh("n", SIdx)
 		err := ft.freshVal("rerr", types.Universe.Lookup("error").Type())
@@ -332,7 +350,7 @@ func init() {
 	intrinsics["io.ReadFull"] = func(fr *frame, c *ssa.CallCommon, args []*Val, rt types.Type, pos token.Pos) *Val {
 		return readAt(fr, c, args, rt, pos)
 	}
-	intrinsicMods["io.ReadFull"] = byteSliceArgMods(0)
+	intrinsicMods["io.ReadFull"] = byteSliceArgMods(1)
 }
 
 func (fr *frame) assumeByteOrder(recv *Val) {
